@@ -21,13 +21,15 @@ Definition C05_roundtrip_full_statement : Prop :=
    JSON scalars surviving the JSON text codec (scalar_rt_ok, decidable); arbitrarily nested list / tuple / set of exact
    builtin class; dict / OrderedDict / defaultdict (factory a type or None) with str / int / float / numpy-number keys
    whose JSON spellings are pairwise distinct and which k_type(key) maps back (incl. the key_types lists, whose repeated
-   type objects are met as memoised nodes); slices with None/int/bool/str bounds; function (ufunc) and type names.
+   type objects are met as memoised nodes); slices with None/int/bool/str bounds; function (ufunc) and type names;
+   attrgetter / itemgetter (operator helpers whose __reduce__ tuple the constructor accepts).
    Sharing is arbitrary: any sub-object (and CPython's cached small ints, type objects, ...) may occur any number of
    times (a DAG); the only requirement is that one label denotes one object (objs_wf: decidable).  The state get_state
    emits is loaded by get_tree + construct to exactly v, identity labels included -- the same sharing.
    c05_guard = fragb (the fragment) && objs_wf (labels) && need v <= default_fuel (nesting depth below the fuel).
-   Still missing from the full statement: bytes / arrays / sparse / dtype / RNG / masked / partial / operator helpers
-   (member lookup by name) and object arrays.  The statement is about the entry points: dumps_model (incl. the root
+   Still missing from the full statement: bytes / arrays / sparse / dtype / RNG / masked arrays (file-bearing leaves:
+   the member lookup by name needs the injectivity of the id rendering -- proved in ShowFacts.v -- threaded through the
+   SaveContext), functools.partial and object arrays.  The statement is about the entry points: dumps_model (incl. the root
    fields protocol/_skops_version of _save) does not raise and loads_model returns v.  The missing kinds are covered by the per-case evaluation `c05_case_same`
    and by the correspondence with the implementation (harness/props/c05.py). *)
 Theorem C05_roundtrip_partial :
